@@ -237,7 +237,12 @@ def _(a, b): return oPL(CM(a).compose(CM(b)))
 @op('inverse')
 def _(a): return oPL(CM(a).inverse())
 @op('embed')
-def _(big, small, m): return oPL(RCV(CM(big)).embed(CM(small), np.array(m, dtype=bool)))
+def _(big, small, m):
+    # embed works IN PLACE on the host and returns it: the host is what callers (layer compilation) go on using, so the host is read back, and the returned object must show the same
+    host = RCV(CM(big))
+    ret = host.embed(CM(small), np.array(m, dtype=bool))
+    h, r = oPL(host), (oPL(ret) if ret is not None else None)
+    return h if r == h else ['host', h, 'returned', r]
 @op('rotation_map')
 def _(gen): return oPL(ST.clifford_rotation_map(P(gen)))
 @op('map_to_state')
